@@ -284,6 +284,14 @@ func (g *G) WildProgram(env string) (*m.Program, map[string]sb.V) {
 				if g.flip("wbparent") && i+1 < g.wildN && len(t.Body) > 0 && t.Body[0].K == "extends" {
 					b.Body = append(b.Body, m.NPrint(&m.E{K: "parent"}))
 				}
+				// a block name used twice in one template, nested or in sequence:
+				// whatever the library makes of it, it must be an answer
+				switch g.intn("wdupblock", 0, 11) {
+				case 0:
+					b.Body = append(b.Body, &m.N{K: "block", S: name, Body: []*m.N{m.NText("dup-inner")}})
+				case 1:
+					t.Body = append(t.Body, &m.N{K: "block", S: name, Body: []*m.N{m.NText("dup-first")}})
+				}
 				t.Body = append(t.Body, b)
 			}
 		}
